@@ -57,11 +57,15 @@ def rule_alias_sole(ctx):
     fn = ctx.fn('codegen', 'codegen::selection::calculate_selection')
     if fn is None:
         return [bad('ALIAS-SOLE', 'floor', 'anchor-missing: calculate_selection not found')]
-    calls = [n for n in H.calls_in(fn) if any(short(f.path).endswith('push_type_alias') for f in ctx.pv.local_fns(n.get('callee')))]
+    fam = [fn]
+    for owner, _n, _p in H.Flat(ctx, fn, 2).entries:
+        if owner not in fam and not owner.from_macro and norm_path(owner.path).startswith('graphql_client_codegen::codegen::selection'):
+            fam.append(owner)
+    calls = [(f_, n) for f_ in fam for n in H.calls_in(f_) if any(short(f.path).endswith('push_type_alias') for f in ctx.pv.local_fns(n.get('callee')))]
     if len(calls) < 2:
         obs.append(bad('ALIAS-SOLE', 'floor', 'anchor-missing: expected 2 alias productions (whole selection, single-spread variant), found %d' % len(calls)))
-    senv = H.sym_env(fn)
-    for i, c in enumerate(calls):
+    for i, (fn, c) in enumerate(calls):
+        senv = H.sym_env(fn)
         inst = 'calculate_selection/alias#%d' % (i + 1)
         pcs = P.path_conds(fn, c)
         sole = False
@@ -84,6 +88,13 @@ def rule_alias_sole(ctx):
                                 why.append('slice pattern with `..` (first element only)')
             elif pc[0] == 'match' and 'FragmentSpread' in repr(pc[2]):
                 spread = True
+                # `if let [(.., FragmentSpread(..))] = xs.as_slice()`: a one-element slice pattern without `..`
+                for s in [pc[2]] + [x for x in P.subterms(pc[2]) if isinstance(x, tuple)]:
+                    if isinstance(s, tuple) and s and s[0] == 'slice':
+                        if not s[2] and len(s[1]) == 1:
+                            sole = True
+                        elif s[2]:
+                            why.append('slice pattern with `..` (first element only)')
         if sole and spread:
             obs.append(ok('ALIAS-SOLE', inst, 'alias only when the selection is exactly one fragment spread', c.get('sp', '')))
         else:
@@ -255,7 +266,13 @@ def rule_traversals(ctx):
                 # the collection iterated to produce the argument
                 loops = [p for p, r, c in fn.ancestors(rc) if p.get('k') == 'for']
                 src = loops[0]['iter'] if loops else node_args[0]
-                keyed.append((repr(TM.strip_bases(ctx.pv.eval(fn, src, senv, 0))), rc))
+                st_ = TM.strip_bases(ctx.pv.eval(fn, src, senv, 0))
+                callee_fns = ctx.pv.local_fns(rc.get('callee'))
+                if not loops and st_[0] == 'param' and callee_fns and all(cf_.key != fn.key for cf_ in callee_fns):
+                    # the function hands its own, whole argument to a helper of the same traversal: the helper continues
+                    # this visit (delegation), it does not descend
+                    continue
+                keyed.append((repr(st_), rc))
             seen = {}
             for k_, rc in keyed:
                 for other in seen.get(k_, []):
